@@ -737,6 +737,43 @@ result = (total, misses, odd)
     return {"fam": "gen", "src": src, "opts": dict(ALL_ON)}
 
 
+def gen_calls(rnd, k):
+    """functions relying on parameter defaults, called with omitted arguments, in modules whose top-level frame is small or
+    large; most programs end in a call whose argument binding fails half-way.  Whatever an execution leaves behind (in the
+    thread, in the process) must not reach the parameters of a later execution."""
+    names = ["h%02d" % i for i in range(rnd.choice([2, 5, 20, 40]))]
+    lines = ["hosts = [%s]" % ", ".join('"%s"' % n for n in names)]
+    nf = rnd.randint(2, 4)
+    sigs = []
+    for i in range(nf):
+        req = rnd.randint(0, 2)
+        opt = rnd.randint(1, 3)
+        params = ["r%d" % j for j in range(req)] + ["o%d=%s" % (j, rnd.choice(["3", '"dflt"', "None", "(1, 2)", "7"])) for j in range(opt)]
+        star = rnd.random() < 0.2
+        lines.append("def f%d(%s%s):" % (i, ", ".join(params), ", *rest" if star else ""))
+        lines.append("    return (%s%s)" % (", ".join(["r%d" % j for j in range(req)] + ["o%d" % j for j in range(opt)] + (["rest"] if star else [])), ","))
+        sigs.append((req, opt, star))
+    for rep in range(rnd.randint(2, 5)):
+        i = rnd.randrange(nf)
+        req, opt, star = sigs[i]
+        given = rnd.randint(0, opt - 1)
+        args = ["hosts[%d]" % rnd.randrange(len(names)) for _ in range(req + given)]
+        lines.append('print("call", %d, f%d(%s))' % (rep, i, ", ".join(args)))
+    if rnd.random() < 0.8:
+        i = rnd.randrange(nf)
+        req, opt, star = sigs[i]
+        kind = rnd.choice(["missing", "missing", "extra", "kw"])
+        if kind == "missing" and req > 0:
+            args = ["hosts[0]"] * (req - 1)
+        elif kind == "extra" and not star:
+            args = ["hosts[-1]"] * (req + opt + 1)
+        else:
+            args = ["hosts[0]"] * req + ["zz=hosts[-1]"]
+        lines.append("failed = f%d(%s)" % (i, ", ".join(args)))
+    lines.append('print("end")')
+    return {"fam": "gen", "src": "\n".join(lines) + "\n", "opts": dict(ALL_ON)}
+
+
 def generate(ctx):
     rnd = random.Random(ctx.seed)
     pool = build_pool(rnd)
@@ -745,6 +782,10 @@ def generate(ctx):
     progs, seen = [], set()
     for k in range(6 if ctx.quick else 40):
         p = gen_big(rnd, k)
+        p["id"] = len(progs) + 1
+        progs.append(p)
+    for k in range(40 if ctx.quick else 400):
+        p = gen_calls(rnd, k)
         p["id"] = len(progs) + 1
         progs.append(p)
     while len(progs) < n:
